@@ -481,3 +481,110 @@ def node_key_identity(check: Check, repo: Repo, rule: str = "NODE-KEY-IDENTITY")
         check.ob(rule, s, f"{fn.name}: {cache}[{', '.join(keys)}] = ...", ok,
                  f"self.{cache} is created as RefMap(): keyed by identity" if ok else
                  f"self.{cache} is created as `{unparse(src) if src is not None else '?'}`: a plain mapping compares the node keys by value")
+
+
+# -- round 4 ------------------------------------------------------------------------------------------------
+
+
+def exclusive_objects(check: Check, repo: Repo, rule: str = "EXCLUSIVE-OBJECTS") -> None:
+    from rules import kind_tables as KT
+    from rules import schema_rules as S
+
+    check.rule(
+        rule,
+        "find_conflict: the expression bound to are_mutually_exclusive, folded over the kinds of the two parent types "
+        "({Object, Interface, Union} x same/distinct object; the kind predicates are decided from the classes they test) "
+        "with the inherited flag False, is True exactly for two distinct Object types and never depends on the schema: "
+        "FieldsInSetCanMerge lets fields differ only when both parents are different Object types - an object and an "
+        "interface it does not implement today may overlap tomorrow, and the spec requires the same field there",
+    )
+    fn = repo.func(MOD, "find_conflict")
+    asg = [s for s in walk_body(fn) if isinstance(s, ast.Assign) and any(isinstance(t, ast.Name) and t.id == "are_mutually_exclusive" for t in s.targets)]
+    if len(asg) != 1:
+        raise AnalysisError("find_conflict: assignment of are_mutually_exclusive not found")
+    unpack = [s for s in walk_body(fn) if isinstance(s, ast.Assign) and isinstance(s.targets[0], ast.Tuple) and unparse(s.value) in ("field1", "field2")]
+    parents = [s.targets[0].elts[0].id for s in unpack if isinstance(s.targets[0].elts[0], ast.Name)]
+    if len(parents) != 2:
+        raise AnalysisError("find_conflict: parent types of the two fields not found")
+    a, b = parents
+    preds = S.predicate_classes(repo)
+    bad = []
+    cells = 0
+    for ka, kb in itertools.product(("Object", "Interface", "Union"), repeat=2):
+        for same in ((True, False) if ka == kb else (False,)):
+            for inherited in (False, True):
+                f = KT.Folder(fn, preds, {a: ka, b: kb}, same, (a, b))
+                # local helper flags defined before the assignment take part in the fold
+                for s in fn.body:
+                    if s is asg[0]:
+                        break
+                    if isinstance(s, ast.Assign) and len(s.targets) == 1 and isinstance(s.targets[0], ast.Name):
+                        f.env[s.targets[0].id] = f.ev(s.value)
+                f.env["parent_fields_are_mutually_exclusive"] = inherited
+                got = f.ev(asg[0].value)
+                want = inherited or (ka == kb == "Object" and not same)
+                cells += 1
+                if isinstance(got, KT.Sym) or got != want:
+                    bad.append(((ka, kb, "same" if same else "distinct", f"inherited={inherited}"), got, want))
+    check.ob(rule, asg[0], f"find_conflict: are_mutually_exclusive over {cells} cells", not bad,
+             "True exactly for two distinct Object types (or an inherited exclusivity)" if not bad else
+             "; ".join(f"{c}: code gives {g!r}, specification {w!r}" for c, g, w in bad[:3]) + (f" (+{len(bad) - 3} more)" if len(bad) > 3 else ""))
+
+
+def every_field_recorded(check: Check, repo: Repo, rule: str = "FIELDS-RECORDED") -> None:
+    check.rule(
+        rule,
+        "collect_fields_and_fragment_spreads records every FieldNode of the selection set in the field map: in the "
+        "FieldNode arm of its loop no normal path reaches the next iteration without passing the append to "
+        "node_and_defs[<response name>] - whatever the parent type is (a union still has __typename, an unknown field has "
+        "no definition but its response name can still collide). A skipped field is never compared with its namesakes",
+    )
+    fn = repo.func(MOD, "collect_fields_and_fragment_spreads")
+    loops = [l for l in walk_body(fn) if isinstance(l, ast.For) and "selections" in unparse(l.iter)]
+    if len(loops) != 1:
+        raise AnalysisError("collect_fields_and_fragment_spreads: loop over the selections not found")
+    arm = next((i for i in loops[0].body if isinstance(i, ast.If) and "FieldNode" in unparse(i.test)), None)
+    if arm is None:
+        raise AnalysisError("collect_fields_and_fragment_spreads: FieldNode arm not found")
+    cfg = CFG(fn)
+    appends = [c for s in arm.body for c in ast.walk(s) if isinstance(c, ast.Call) and isinstance(c.func, ast.Attribute) and c.func.attr == "append"
+               and "node_and_defs" in unparse(c.func.value)]
+    if not appends:
+        check.ob(rule, arm, "FieldNode arm records the field", False, "no append to node_and_defs[...] in the FieldNode arm")
+        return
+    goal_avoid = {n for c in appends for n in cfg.node_for_expr(c)}
+    head = cfg.nodes_of(loops[0])[0]
+    start = cfg.nodes_of(arm.body[0])[0]
+    path = cfg.find_path(start, lambda nd: nd is head or nd is cfg.exit, follow=no_exc, avoid=lambda nd: nd in goal_avoid)
+    check.ob(rule, appends[0], "collect_fields_and_fragment_spreads: every FieldNode is appended to the field map", path is None,
+             "every normal path through the FieldNode arm passes the append" if path is None else
+             "a field can be skipped: " + cfg.describe_path(path)[-200:])
+
+
+def node_value_compare(check: Check, repo: Repo, mods: list, rule: str = "NODE-BY-IDENTITY") -> int:
+    from sa.mtypes import MTypes
+
+    check.rule(
+        rule,
+        "AST nodes are dataclass values: `a == b` between two nodes compares every field recursively (including the "
+        "location when there is one), it is not `a is b`. In the validation rules no ==/!= has an AST node class "
+        "(a `...Node` of language.ast; the OperationType enum does not count) as static operand type: a verdict "
+        "taken from structural equality (\\\"identical sub-selections cannot conflict\\\") depends on whether the "
+        "document was parsed with locations and ignores the parent types the equal-looking selections apply to",
+    )
+    mt = MTypes.get(repo)
+    n = 0
+    bad = 0
+    for mod in mods:
+        for c in ast.walk(mod.tree):
+            if not (isinstance(c, ast.Compare) and len(c.ops) == 1 and isinstance(c.ops[0], (ast.Eq, ast.NotEq))):
+                continue
+            n += 1
+            tys = [mt.type_of(c.left) or "", mt.type_of(c.comparators[0]) or ""]
+            node_typed = [t for t in tys if "language.ast." in t and any(part.split("[")[0].endswith("Node") for part in t.replace(" | ", "|").split("|") if "language.ast." in part)]
+            if node_typed:
+                bad += 1
+                check.ob(rule, c, f"{qualname_of(c)}: `{unparse(c)[:60]}`", False,
+                         f"operands of type {node_typed[0][:70]} are compared structurally; use identity or compare the keys that matter")
+    check.ob(rule, mods[0].tree, f"{n} ==/!= comparisons in {len(mods)} modules", True, f"{n - bad} without an AST node operand", nontrivial=False)
+    return n
